@@ -78,7 +78,31 @@ func (r *c02run) attack(dir int, op SOp) {
 		forged = append(append([]byte{}, raw[:hl]...), ref.BuildData(raw[:hl], flags, sk, rk, next, ctr, enc, mackey, nil)...)
 		inAuth = true
 	}
-	switch op.X % 16 {
+	switch op.X % 19 {
+	case 16:
+		// the next-DH MPI re-encoded with leading zero bytes (same number, different authenticated bytes)
+		z := 1 + op.F%3
+		mpi := append(ref.PutU32(nil, uint32(len(d.NextDH.Bytes())+z)), append(make([]byte, z), d.NextDH.Bytes()...)...)
+		put("nextdh", mpi)
+		class = "nextdh-leading-zeros"
+	case 17:
+		// version 3: receiver (or sender) instance tag overwritten in transit
+		if hl != 11 {
+			return
+		}
+		off := 7
+		vals := []uint32{0, 0, 0x100, 0xffffffff}
+		if op.F%4 == 3 {
+			off = 3
+		}
+		copy(forged[off:], ref.PutU32(nil, vals[op.L%len(vals)]))
+		inAuth, class = true, "header-tag-overwritten"
+	case 18:
+		// the ciphertext DATA field re-encoded with a trailing byte moved across the boundary: length +1, stealing the first MAC byte
+		f := d.Fields["enc"]
+		forged = append([]byte{}, raw...)
+		copy(forged[hl+f[0]:], ref.PutU32(nil, uint32(len(d.Enc)+1)))
+		inAuth, class = true, "enc-length+1"
 	case 0:
 		pos := op.L % authEnd
 		forged[pos] ^= 1 << uint(op.F%8)
@@ -385,7 +409,7 @@ func runC02(sc *SessScript) *sim.Outcome {
 func init() { reg("C02attack", runC02); reg("C02sweep", runC02) }
 
 func genAtk(rt *rapid.T) SOp {
-	return SOp{K: "atk", W: rapid.IntRange(0, 1).Draw(rt, "w"), X: rapid.IntRange(0, 15).Draw(rt, "kind"),
+	return SOp{K: "atk", W: rapid.IntRange(0, 1).Draw(rt, "w"), X: rapid.IntRange(0, 18).Draw(rt, "kind"),
 		L: rapid.IntRange(0, 4000).Draw(rt, "pos"), F: rapid.IntRange(0, 255).Draw(rt, "val")}
 }
 
@@ -438,6 +462,18 @@ func TestProp_C02_Sweep(t *testing.T) {
 			step := 1
 			if !sim.Thorough() {
 				step = 3
+			}
+			// every structured attack kind once per prefix class (field substitutions, forgeries, re-encodings)
+			for x := 3; x < 19; x++ {
+				for _, lf := range [][2]int{{0, 0}, {1, 1}, {2, 2}, {3, 3}} {
+					idx++
+					if idx%sn != si {
+						continue
+					}
+					m := SOp{K: "atk", W: dir, X: x, L: lf[0], F: lf[1]}
+					sc := &SessScript{Cfg: cfg, Ops: append(append([]SOp{}, pre...), m, SOp{K: "flush"})}
+					sim.Judge(t, "C02sweep", sc)
+				}
 			}
 			for pos := 0; pos < authEnd; pos += step {
 				for _, m := range []SOp{{X: 0, F: 0}, {X: 0, F: 7}, {X: 1, F: 0}, {X: 1, F: 255}, {X: 2}} {
